@@ -33,7 +33,7 @@ except Exception:  # stand-alone use
             h.update(open(p, "rb").read())
         return h.hexdigest()[:16]
 
-FILES = ["src/fs/fimg.rs", "src/bios/bpb.rs", "src/bios/fat.rs", "src/fs/fat/mod.rs", "src/img/imd.rs", "src/img/td0.rs", "src/img/dot2mg.rs", "src/img/dsk_do.rs", "src/img/dsk_po.rs", "src/img/nib.rs", "src/fs/pascal/mod.rs", "src/fs/pascal/types.rs", "src/img/woz.rs", "src/img/woz2.rs", "src/lang/applesoft/tokenizer.rs",
+FILES = ["src/fs/fimg.rs", "src/bios/bpb.rs", "src/bios/fat.rs", "src/fs/fat/mod.rs", "src/img/imd.rs", "src/img/td0.rs", "src/img/dot2mg.rs", "src/img/dsk_do.rs", "src/img/dsk_po.rs", "src/img/nib.rs", "src/fs/pascal/mod.rs", "src/fs/pascal/types.rs", "src/img/woz.rs", "src/img/woz1.rs", "src/img/disk525.rs", "src/img/woz2.rs", "src/lang/applesoft/tokenizer.rs",
          "src/lang/applesoft/mod.rs", "src/lang/applesoft/settings.rs", "src/lang/applesoft/token_maps.rs",
          "src/lang/integer/tokenizer.rs", "src/lang/integer/mod.rs", "src/lang/integer/settings.rs",
          "src/lang/integer/token_maps.rs"]
@@ -179,6 +179,50 @@ def generate(repo):
                  "if next+8 > buf.len() { next = 0; }", "INFO_ID | TMAP_ID | TRKS_ID | WRIT_ID | META_ID => {"]:
         if ws(frag) not in woz:
             raise TranslatorError("c12: get_next_chunk is not in the modelled form")
+
+
+    # ---- track bit cursor and the gates that create it (WOZ1, WOZ2, NIB) ----------------------------------------
+    d525 = rd("src/img/disk525.rs")
+    sf = ws(fn_body(d525, r"pub fn shift_fwd\s*\(", "disk525 shift_fwd"))
+    if sf != ws("{ let mut ptr = self.bit_ptr; ptr += bit_shift; while ptr >= self.bit_count { ptr -= self.bit_count; } self.bit_ptr = ptr; }"):
+        raise TranslatorError("c12: disk525 TrackBits::shift_fwd is not in the modelled form")
+    nx = ws(fn_body(d525, r"pub fn next\s*\(", "disk525 next"))
+    if nx != ws("{ let i = self.bit_ptr/8; let b = 7 - (self.bit_ptr%8) as u8; self.shift_fwd(1); return (bits[i] >> b) & 1; }"):
+        raise TranslatorError("c12: disk525 TrackBits::next is not in the modelled form")
+    woz1 = rd("src/img/woz1.rs")
+    gtr = ws(fn_body(woz1, r"fn get_trk_ref\s*\(", "woz1 get_trk_ref"))
+    g_buf = ws("Some(trk) if trk.bit_count!=[0,0] && u16::from_le_bytes(trk.bit_count) as usize <= trk.bits.len()*8 => Ok(trk),") in gtr
+    g_bu = ws("Some(trk) if trk.bit_count!=[0,0] && u16::from_le_bytes(trk.bit_count) as usize <= u16::from_le_bytes(trk.bytes_used) as usize*8 => Ok(trk),") in gtr
+    g_none = ws("Some(trk) if trk.bit_count!=[0,0] => Ok(trk),") in gtr
+    if [g_buf, g_bu, g_none].count(True) != 1 or gtr.count("Some(trk)") != 1:
+        raise TranslatorError("c12: woz1 get_trk_ref has a guard in an unknown form")
+    flags.append(("woz1BitCountVsBuffer", g_buf, "woz1 get_trk_ref bounds the bit count by the fixed bit buffer (bits.len()*8)"))
+    flags.append(("woz1BitCountVsBytesUsed", g_bu, "woz1 get_trk_ref bounds the bit count by the entry's own bytes_used field"))
+    if ws("bits: [u8;TRACK_BYTE_CAPACITY]") not in ws(woz1) and ws("bits: [u8;6646]") not in ws(woz1):
+        raise TranslatorError("c12: woz1 Trk.bits is not a fixed array")
+    m1 = re.search(r"const\s+TRACK_BYTE_CAPACITY\s*:\s*usize\s*=\s*(\d+)\s*;", woz1)
+    if not m1:
+        raise TranslatorError("c12: woz1 TRACK_BYTE_CAPACITY not found")
+    consts.append(("woz1TrackByteCapacity", int(m1.group(1))))
+    nro = ws(fn_body(woz1, r"fn new_rw_obj\s*\(", "woz1 new_rw_obj"))
+    for frag in ["let bit_count_le = self.get_trk_ref(track)?.bit_count;", "if self.head_coords.bit_ptr < bit_count { ans.set_bit_ptr(self.head_coords.bit_ptr); }"]:
+        if ws(frag) not in nro:
+            raise TranslatorError("c12: woz1 new_rw_obj is not in the modelled form")
+    rng2 = ws(fn_body(woz2, r"fn get_trk_bits_rng\s*\(", "woz2 get_trk_bits_rng"))
+    r_guard = ws("if end > self.trks.bits.len() || u32::from_le_bytes(trk.bit_count) as usize > (end-begin)*8 { return Err(img::NibbleError::BadTrack); }") in rng2 \
+        and ws("checked_sub(self.track_bits_offset)") in rng2
+    if not r_guard and ("bit_count" in rng2 or "checked_sub" in rng2):
+        raise TranslatorError("c12: woz2 get_trk_bits_rng has a guard in an unknown form")
+    flags.append(("woz2TrkRangeGuard", r_guard, "woz2 get_trk_bits_rng keeps the blocks inside the TRKS buffer and the bit count inside the blocks"))
+    gtr2 = ws(fn_body(woz2, r"fn get_trk_ref\s*\(", "woz2 get_trk_ref"))
+    if ws("Some(trk) if trk.bit_count!=[0,0,0,0] => Ok(trk),") not in gtr2:
+        raise TranslatorError("c12: woz2 get_trk_ref no longer refuses a zero bit count")
+    nib = rd("src/img/nib.rs")
+    nnro = ws(fn_body(nib, r"fn new_rw_obj\s*\(", "nib new_rw_obj"))
+    nbits = ws(fn_body(nib, r"fn get_trk_bits_ref\s*\(", "nib get_trk_bits_ref"))
+    flags.append(("nibBitCountIsCapacity", ws("let bit_count = self.trk_cap * 8;") in nnro and
+                  nbits == ws("{ &self.data[track as usize * self.trk_cap..(track as usize+1) * self.trk_cap] }"),
+                  "nib: the cursor's bit count is 8 times the length of the track slice"))
 
     # ---- FAT cluster chains (no flags: the code is repaired; the guards the theorems rely on must be present) ---
     fatrs = rd("src/bios/fat.rs")
